@@ -739,8 +739,9 @@ def _raise(e):
 
 
 def _sdiv(a, b):
+    """array-level (NumPy semantics) division: never raises, x/0 = +-inf or nan"""
     if _is_sym(a) or _is_sym(b):
-        return SF.lift(a) / b if not isinstance(a, SF) else a / b
+        return SF.lift(a)._div_ieee(b)
     a = float(a)
     b = float(b)
     if b == 0:
